@@ -363,6 +363,10 @@ def family():
         [{'t': 'AddField', 'model': 'Alpha', 'field': 'tag', 'ftype': 'CharField', 'initial': '"n/a"',
           'attrs': [['max_length', '20'], ['null', 'true']]}, cf('tag', None, ('max_length', '40'))],
         [cf('qty', '7', ('null', 'false')), cf('qty', None, ('null', 'true'))],
+        # a column that may hold NULL again, the mutation still carrying an initial value (hints always write one): the
+        # values that are there stay
+        [cf('qty', '7', ('null', 'false')), cf('qty', '9', ('null', 'true'))],
+        [cf('note', '"x"', ('null', 'false')), add('extra', '3'), cf('note', '"n/a"', ('null', 'true'))],
         [add('extra', '3'), cf('extra', None, ('db_index', 'true')), cf('note', '"n/a"', ('null', 'false')),
          cf('note', None, ('max_length', '30'))],
         # a name that is freed by a rename and used again: each column keeps its own initial value
@@ -468,7 +472,14 @@ def general_case(rng, seed, fixed=None):
         after = dbrig.abs_rows()
         rep['problems_' + mode] = judge_rows(sig0, muts, before, after)
     rep['problems'] = rep.get('problems_stepwise', [])
-    if fixed is not None:
+    declared = {}
+    for m in muts:
+        if m.get('initial') is not None and m['t'] in ('AddField', 'ChangeField'):
+            declared[(m['model'], m['field'])] = declared.get((m['model'], m['field']), 0) + 1
+    # (not for sequences that declare two initial values for one column: the tool itself never puts two such
+    # operations into one rebuild - the optimiser folds them first -, and which of the two a merged rebuild should
+    # use is not something the property says)
+    if fixed is not None and not any(n > 1 for n in declared.values()):
         # third mode, family only: ONE AppMutator fed one mutation at a time (the public run_mutation(); what a caller
         # gets who hands over an app's evolutions one by one): no optimiser, but the operations on a model are merged
         # into one table rebuild
